@@ -697,6 +697,13 @@ class Translator:
                          if len(a) >= len(args) and all(x == y or x.startswith('{"kind": "TemplateArgument"') for x, y in zip(a, args))]
             if len(cands) == 1: return self.record_ct(cands[0], fctx)
             if len(cands) > 1:
+                # specializations that print the same (e.g. on T and const T): harmless when every candidate is an empty record
+                # (identical C layout; member functions are resolved through the AST, not through the record)
+                try:
+                    cts = [self.record_ct(d, fctx) for d in cands]
+                    if all(self.record_is_empty(c) for c in cts): return cts[0]
+                except Unsupported:
+                    pass
                 fail('ambiguous template spec %s (%d candidates)' % (name, len(cands)), node)
         if name in self.enums:
             return self.enum_ct(self.enums[name])
@@ -2438,6 +2445,19 @@ class Translator:
         if ct.kind == 'struct':
             if self.record_is_empty(ct) or self.ct_stateless(ct):
                 return '((%s){0})' % ct.c
+            if d.get('name') == 'to_value_v' and ct.model == 'array':
+                # meta::to_value_v<tuple<integral_constant<T,v0>, integral_constant<T,v1>, ...>>: the value is spelled in the type
+                ta = [c for c in d.get('inner', []) or [] if c.get('kind') == 'TemplateArgument']
+                ts = norm_type_string(((ta[0].get('type') or {}).get('desugaredQualType') or (ta[0].get('type') or {}).get('qualType') or '')) if ta else ''
+                b0, a0 = split_template(strip_cv(ts))
+                if a0 is not None and b0.split('::')[-1] in ('tuple', 'tuplev2'):
+                    vals = []
+                    for x in a0:
+                        bx, ax = split_template(strip_cv(x))
+                        if ax is None or bx.split('::')[-1] != 'integral_constant' or len(ax) != 2 or not re.match(r'^-?\d+[uUlL]*$', ax[1]): vals = None; break
+                        vals.append(re.sub(r'[uUlL]+$', '', ax[1]))
+                    if vals is not None and len(vals) == int(ct.margs[1]):
+                        return '((%s){{%s}})' % (ct.c, ', '.join(self.lit(int(v), ct.margs[0]) for v in vals))
             fail('non-empty record constant %s' % d.get('name'), n)
         init = None
         for c in d.get('inner', []) or []:
